@@ -211,9 +211,18 @@ def oracle_loaders(case, ctx):
             res[(split, rxy)] = r
     if discs:
         return discs
+    for key, r in res.items():
+        X_ = r[0] if key[1] else r.iloc[:, :-1]
+        chk = sut(_dec, X_)
+        if isinstance(chk, Raised):
+            discs.append(D("loader_output_malformed", "split=%r return_X_y=%r: columns %s: %s" % (key[0], key[1], list(getattr(X_, "columns", [])), chk.msg)))
+    if discs:
+        return discs
     Xtr, ytr = res[("train", True)]
     Xte, yte = res[("test", True)]
     Xall, yall = res[(None, True)]
+    if Xtr.shape[1] != Xte.shape[1] or Xall.shape[1] != Xtr.shape[1]:
+        return [D("loader_column_count", "train %s test %s all %s" % (Xtr.shape, Xte.shape, Xall.shape))]
     want = _dec(Xtr) + _dec(Xte)
     d = _same_panel(_dec(Xall), want)
     if d:
